@@ -53,9 +53,11 @@ PROPS = {
                 text="Interpolate(s0, s1, a/den) with R-set union and matrix-set intersection: endpoints reproduce s0 / s1 at every k (Ham and the second "
                      "matrix), affine in alpha (also a = -1 and a = den + 1), centres affine and in force in the derivative of H(k); replay on "
                      "SystemInterpolator.interpolate (use_pointgroup 1/0/-1, second call of the same interpolator after spoiling the first result, inputs "
-                     "unchanged) with exact projection; SystemInterpolatorSOC through recorded calls validated by TLC.",
+                     "unchanged, the same R-vectors stored in different orders in the two systems) with exact projection; SystemInterpolatorSOC through recorded calls validated by TLC, for all four pairs of numbers of spin "
+                     "channels (1,1), (1,2), (2,1), (2,2) (a system with one channel is described with down = up).",
                 note="alpha in {0, 1/2, 1} (+ -1/2, 3/2; thorough also quarters) with dyadic data; numeric (deciding, 1e-9): random alpha with different "
-                     "centres: H(k), centres, derivative",
+                     "centres: H(k), centres, derivative; SystemInterpolatorSOC for the four pairs of spin-channel numbers at alpha = 0, 1/2, 1, random: H(k) of "
+                     "Data_K_soc vs the mix of the end points, end points reproduced, each spin channel the mix of the channels",
                 ref="DESIGN.md 3.4, row C26"),
     "C32": dict(level="model_checking", technique=_T,
                 text="PythTB (set_onsite/set_hop, set/add modes, refusals, spinful blocks) and TBmodels (constructor on_site, add_hop, add_on_site; halved "
@@ -668,20 +670,35 @@ def check_c26(rep, thorough):
         else:
             s1["cen"] = s0["cen"] + den * np.array([[rng.choice([0, 1]), rng.choice([0, -1]), 0] for _ in range(nw)])
         return s0, s1
+    nsoc, nsame = {}, [0]
     for i in range(nrec):
         den = rng.choice([2, 2, 4])
         a = rng.randint(-1, den + 1)
         var = W.variant_of(("c26rec", i))
-        if i % 4 == 3:
-            val = _try_record(rep, "SystemInterpolatorSOC.interpolate", dict(index=i, a=a, den=den), RND.rec_interp_soc, rng, a, den, ks, var=var)
+        if i % 3 == 2:                                              # the four pairs of numbers of spin channels in turn, (1, 2) at the end point first
+            j = i // 3
+            nspins = ((1, 2), (2, 1), (1, 1), (2, 2))[j % 4]
+            a = (den, 1, 0, den + 1, -1, den // 2)[(j // 4 + j) % 6] if j >= 4 else (den, 1, 0, den + 1)[j]
+            val = _try_record(rep, "SystemInterpolatorSOC.interpolate", dict(index=i, a=a, den=den, nspins=nspins), RND.rec_interp_soc, rng, a, den, ks,
+                              var=var, nspins=nspins)
             if val is not None:
                 recs.append(val[0])
-                rep.case(("rec", "interp_soc", i, a, den))
+                nsoc[nspins] = nsoc.get(nspins, 0) + 1
+                rep.case(("rec", "interp_soc", i, a, den, nspins))
             continue
         s0, s1 = pair(rng, den, rng.choice([1, 2, 3]), rng.random() < 0.5)
+        same_rset = i % 3 == 1                                      # the same SET of R-vectors, stored in another order in the second system
+        if same_rset:
+            cen1 = s1["cen"]
+            s1 = RND.rand_same_rs(rng, s0)
+            s1["cen"] = cen1
+            for R in s1["rs"]:
+                s1["H"][R] = s1["H"][R] * den
+            s0 = dict(s0, hasX=False, X={R: np.zeros_like(s0["H"][R]) for R in s0["rs"]})
+            nsame[0] += len(s0["rs"]) > 1
         upg = (1, 0, -1)[var["h"] % 3]
         val = _try_record(rep, "SystemInterpolator.interpolate", dict(s0=W.sys_json(s0), s1=W.sys_json(s1), a=a, den=den, use_pointgroup=upg),
-                          RND.rec_interp, rng, s0, s1, a, den, var=var, use_pointgroup=upg, reuse=bool((var["h"] >> 2) & 1))
+                          RND.rec_interp, rng, s0, s1, a, den, var=var, use_pointgroup=upg, reuse=bool((var["h"] >> 2) & 1), shuffle=same_rset)
         if val is None:
             continue
         rec, views, out = val
@@ -690,6 +707,11 @@ def check_c26(rep, thorough):
             rep.violation("SystemInterpolator.interpolate:centres_not_propagated", dict(record=rec, differences=dv))
         recs.append(rec)
         rep.case(("rec", "interp", i, a, den))
+    if not rep.violations and len(nsoc) < 4:
+        raise MachineryError(f"vacuous: SystemInterpolatorSOC records do not cover the four pairs of spin-channel numbers ({nsoc})")
+    if not rep.violations and nsame[0] == 0 and "shuffle_R" not in W.SKIPPED:
+        raise MachineryError("vacuous: no record with the same R-vectors stored in different orders")
+    rep.part("interp_soc_records", **{f"nspin_{k[0]}_{k[1]}": v for k, v in nsoc.items()}, records_same_R_set_other_order=nsame[0])
     _validate(rep, recs, "c26", lambda r: "SystemInterpolatorSOC.interpolate" if r["fn"] == "interp_soc" else "SystemInterpolator.interpolate")
     f0, f1 = _fixed_sys(11, nw=2, scale=2, cen_choices=(0, 4, 8)), _fixed_sys(12, nw=2, scale=2, cen_choices=(0, 4, 8))
     f1["cen"] = f0["cen"].copy()
@@ -704,6 +726,11 @@ def check_c26(rep, thorough):
         nw = rng.choice([2, 3])
         var = W.variant_of(("c26num", it))
         s0, s1 = pair(rng, 1, nw, it % 2 == 0)
+        shuffled = it % 4 >= 2
+        if shuffled:                                                # the same SET of R-vectors, stored in another order in the second system
+            cen1 = s1["cen"]
+            s1 = RND.rand_same_rs(rng, s0)
+            s1["cen"] = cen1
         al = float(nprng.rand() * 1.6 - 0.3)
         bkw = dict(periodic=var["periodic"], lattice=var["lattice"])
         kq = [(1, 2, 0), (3, 3, 0)]
@@ -713,6 +740,8 @@ def check_c26(rep, thorough):
             with quiet(), warnings.catch_warnings():
                 warnings.simplefilter("ignore")
                 r0, r1 = W.build(s0, **bkw), W.build(s1, **bkw)
+                if shuffled:
+                    W.shuffle_R(r1)
                 r = SystemInterpolator(r0, r1).interpolate(al)
             cen = np.asarray(r.wannier_centers_cart) @ np.linalg.inv(r.real_lattice) * W.CU
             return W.real_hk(r, kq), cen, W.shifts_consistent(r, kq, periodic=var["periodic"])
@@ -732,7 +761,73 @@ def check_c26(rep, thorough):
             rep.violation("SystemInterpolator.interpolate:centres_not_propagated:numeric", dict(detail, deviation=dsh,
                           note="derivative of H(k) of the result vs a system built from the result's matrices and centres"))
     rep.part("numeric_deciding", random_alpha_cases=nn, max_deviation=maxdev, tolerance=1e-9)
+    _interp_soc_numeric(rep, rng, thorough)
     return rep.finish()
+
+
+def _interp_soc_numeric(rep, rng, thorough):
+    """deciding numeric part (1e-9, observed 1e-15): SystemInterpolatorSOC for every pair of numbers of spin channels (1,1), (1,2), (2,1), (2,2):
+    H(k) of Data_K_soc of interpolate(a) is the affine mix of the H(k) of the two real end points (a = 0, 1/2, 1 and a random a), the end points
+    are reproduced, and each spin channel (system_up / system_down of the result) is the affine mix of the channels, a system with one
+    channel contributing it to both"""
+    from wannierberri.system.interpolate import SystemInterpolatorSOC
+    nprng = np.random.RandomState(seed() + 262626)
+    kq = [(0, 0, 0), (1, 2, 0), tuple(4 * nprng.rand(3))]
+    maxdev, n = 0.0, 0
+    for rnd in range(3 if thorough else 1):
+        for nspins in ((1, 2), (2, 1), (1, 1), (2, 2)):
+            nw = rng.choice([1, 2])
+            var = W.variant_of(("c26socnum", rnd, nspins))
+            ends = []
+            for nspin in nspins:
+                up, dn = RND.rand_sys(rng, nw=nw, with_x=False), RND.rand_sys(rng, nw=nw, with_x=False)
+                for x_, f in ((up, 0.37), (dn, 0.61)):
+                    for R in x_["rs"]:
+                        x_["H"][R] = x_["H"][R] * f
+                ends.append((up, dn, RND.rand_soc_data(rng, nw), rng.randint(0, 3), rng.randint(0, 3), nspin))
+            detail = dict(nspins=list(nspins), lattice=var["lattice"].tolist(), ups=[W.sys_json(e[0]) for e in ends], downs=[W.sys_json(e[1]) for e in ends])
+
+            def setup():
+                socs = [RND.make_real_soc(e[0], e[1], e[2], e[3], e[4], 1, nspin=e[5], var=var)[0] for e in ends]
+                hks = [W.real_hk(x, kq) for x in socs]
+                chan = [(W.real_hk(x.system_up, kq), W.real_hk(x.system_down, kq)) for x in socs]
+                with quiet(), warnings.catch_warnings():
+                    warnings.simplefilter("ignore")
+                    itp = SystemInterpolatorSOC(socs[0], socs[1])
+                return itp, hks, chan
+            ok, val = W.guarded(rep, "SystemInterpolatorSOC", detail, setup)
+            if not ok:
+                continue
+            itp, hks, chan = val
+            for al in (0.0, 0.5, 1.0, float(nprng.rand())):
+                def one():
+                    with quiet(), warnings.catch_warnings():
+                        warnings.simplefilter("ignore")
+                        r = itp.interpolate(al)
+                    ch = W.private("SystemSOC.system_up/system_down", lambda: (W.real_hk(r.system_up, kq), W.real_hk(r.system_down, kq)))
+                    return W.real_hk(r, kq), ch
+                ok, val = W.guarded(rep, "SystemInterpolatorSOC.interpolate:numeric", dict(detail, alpha=al), one)
+                if not ok:
+                    continue
+                hk, ch = val
+                n += 1
+                rep.case(("socnum", rnd, nspins, al))
+                dev = float(np.max(np.abs(hk - ((1 - al) * hks[0] + al * hks[1])))) if hk.shape == hks[0].shape else float("inf")
+                if dev > 1e-9:
+                    kind = "end_point" if al in (0.0, 1.0) else "affine"
+                    rep.violation(f"SystemInterpolatorSOC.interpolate:{kind}:numeric", dict(detail, alpha=al, deviation=dev,
+                                  note="H(k) of Data_K_soc of the interpolated system vs the mix of the H(k) of the two end points"))
+                dch = 0.0
+                if ch is not None:
+                    for c in (0, 1):
+                        exp = (1 - al) * chan[0][c] + al * chan[1][c]
+                        dch = max(dch, float(np.max(np.abs(ch[c] - exp))) if ch[c].shape == exp.shape else float("inf"))
+                    if dch > 1e-9:
+                        rep.violation("SystemInterpolatorSOC.interpolate:spin_channels:numeric", dict(detail, alpha=al, deviation=dch,
+                                      note="H(k) of system_up / system_down of the result vs the mix of the channels of the end points "
+                                           "(a system with one channel contributes it to both)"))
+                maxdev = max(maxdev, dev, dch)
+    rep.part("numeric_deciding_interpolator_soc", cases=n, max_deviation=maxdev, tolerance=1e-9, pairs_of_spin_channel_numbers=[[1, 2], [2, 1], [1, 1], [2, 2]])
 
 
 def _cap_violations(rep, cap=2):
